@@ -507,10 +507,25 @@ def _geometry_failures(n, seed, limit=3):
         frac_inside = float(((axial >= -1e-9 * h) & (axial <= h * (1 + 1e-9)) & (radial2 <= r * r * (1 + 1e-9))).mean())
         wsum = float(w.to(unit='m^3').values.sum())
         vol = math.pi * r * r * h
-        if frac_inside < 1.0 or not (w.values > 0).all() or abs(wsum - vol) > 2e-6 * vol:
+        # the rule integrates polynomials over the solid: first and second moments along and across the axis (exact values: centre
+        # of mass at h/2 on the axis, <z'^2> = h^2/12 about the centre, <rho^2> = r^2/2)
+        wv = w.to(unit='m^3').values
+        m1 = float((wv * axial).sum() / wsum) if wsum else float('nan')
+        m2 = float((wv * (axial - h / 2) ** 2).sum() / wsum) if wsum else float('nan')
+        mr = float((wv * radial2).sum() / wsum) if wsum else float('nan')
+        # (the axial rule of 'medium'/'expensive' is Chebyshev-Gauss with re-weighting, an approximation: a few per cent on the variance
+        # are its normal accuracy and not part of the property -- the bound below only excludes a grossly wrong rule)
+        tol2 = 1e-5 if kind == 'cheap' else 0.1
+        moments_ok = abs(m1 - h / 2) <= 1e-6 * h and abs(m2 - h * h / 12) <= tol2 * h * h / 12 and abs(mr - r * r / 2) <= 0.05 * r * r / 2
+        # asking again (same object, and an equal cylinder) gives the same rule: no state carried from one request to the next
+        again = [c.quadrature(kind), cylm.Cylinder(symmetry_line=sc.vector(ax), center_of_base=sc.vector(base, unit='m'), radius=sc.scalar(r * 1000, unit='mm'),
+                                                   height=sc.scalar(h, unit='m')).quadrature(kind)]
+        repeat_ok = all(sc.identical(p2, pts) and sc.identical(w2, w) for p2, w2 in again)
+        if frac_inside < 1.0 or not (w.values > 0).all() or abs(wsum - vol) > 2e-6 * vol or not moments_ok or not repeat_ok:
             if len(fails) < limit:
                 fails.append({'id': f'case{i}', 'index': i, 'seed': seed, 'axis': ax.tolist(), 'kind': kind, 'fraction_of_points_inside': frac_inside,
-                              'sum_w/volume': wsum / vol})
+                              'sum_w/volume': wsum / vol, 'axial_mean/h': m1 / h, 'axial_variance/(h^2/12)': m2 / (h * h / 12), 'radial_square_mean/(r^2/2)': mr / (r * r / 2),
+                              'repeated_request_identical': repeat_ok})
     return fails
 
 
